@@ -22,7 +22,7 @@ RULE = (
     "harness-controlled hash values of tasks/components (iteration order of the library's internal sets); "
     "R3 simulate again on the same object, also after backward_simulate (with and without considering_due_time_of_tail_tasks) / initialize / insert+remove absence / "
     "simulate() with default arguments, and a fresh project simulated with default arguments afterwards (no "
-    "hidden state); R6 after a cut run: on models whose behaviour does not depend on the absolute time (no absence lists, no task complete from the start, not FIFO) simulate(initialize_state_info=True, initialize_log_info=False) after a run cut short by max_time appends exactly the log of a fresh run; R5 warm start: the model is obtained by editing, in place, the objects of another model that has "
+    "hidden state); R7 the same model with other task ID strings (reverse lexicographic order) gives the same result up to the renaming; R6 after a cut run: on models whose behaviour does not depend on the absolute time (no absence lists, no task complete from the start, not FIFO) simulate(initialize_state_info=True, initialize_log_info=False) after a run cut short by max_time appends exactly the log of a fresh run; R5 warm start: the model is obtained by editing, in place, the objects of another model that has "
     "already been simulated (morph), or by swapping freshly built product/workflow/organization into a used project "
     "object (graft) - the result must equal the fresh build; R4 (thorough) the same batch of specs simulated in child processes with other "
     'History op sim_other = an earlier run with every option set the other way (auto-task flag, rule, absence steps). '
@@ -45,7 +45,7 @@ CFG = gen.Cfg(onesided=4, servable=3, due=True,
     facilities=True,
     kinds=[0, 0, 1, 2, 2, 3, 3],
     tie_rich=2,
-    rules=[0, 0, 0, 1, 1, 2, 3, 4, 5, 6, 7, 8],
+    rules=[0, 0, 0, 1, 1, 2, 3, 4, 4, 5, 6, 7, 8],
     max_time=[40],
     inputs=False,
     chain_components=True,
@@ -84,6 +84,7 @@ def _case(draw, cfg):
         "junk": draw(st.integers(1, 50)),
         "warm": draw(st.sampled_from([[], [], ["morph"], ["graft"], ["morph", "graft"]])),
         "r6": draw(st.sampled_from([0, 1, 2, 3, 5])),
+        "relabel": draw(st.booleans()),
     }
 
 
@@ -213,6 +214,25 @@ def check(case):
         if dw != dref:
             diffs = S.diff_dumps(dref, dw)
             res.fail("C09.R5_warm_start", "a model edited into this spec after an earlier run (%s) differs from the fresh build: %s" % (mode, "; ".join(diffs[:3])), sig=mode)
+
+    # R7: task IDs are labels (random uuids unless given): the same model with other ID strings - here in the reverse
+    # lexicographic order - gives the same result up to that renaming
+    if case.get("relabel"):
+        old_ids = [S.tid(i) for i in range(len(spec["tasks"]))]
+        h7 = S.build(dict(spec, task_ids="rev"))
+        new_ids = [S.tid(i) for i in range(len(spec["tasks"]))]
+        S.simulate(h7.project, spec["opts"])
+        d7 = S.dump(h7.project)
+        S.set_style(spec)
+        back = dict(zip(new_ids, old_ids))
+        d7["tasks"] = {back[k]: v for k, v in d7["tasks"].items()}
+        for sect in ("workers", "facs"):
+            for e in d7[sect].values():
+                e["assigned"] = [None if x is None else [back[t] for t in x] for x in e["assigned"]]
+        res.cls("R7_relabelled")
+        if d7 != dref:
+            diffs = S.diff_dumps(dref, d7)
+            res.fail("C09.R7_task_ids", "the same model with other task ID strings gives another result: %s" % "; ".join(diffs[:3]))
 
     # R6: a run that was cut short by max_time leaves nothing behind that survives a state reset. On models without
     # absence lists, without tasks that are complete from the start and under a rule other than FIFO (which counts log
